@@ -893,6 +893,19 @@ def simplify_clauses(p, eps, closed, out, m):
     return bad
 
 
+FLOAT_CANCEL_KEY = 'simplify-float-cancellation'
+
+
+def float_cancel_known(p, kind):
+    """the clause failures that float64 cancellation in a*d - c*b explains: some product of two coordinate differences
+    of the path needs more than 53 bits (then the two rounded products can agree, or differ by a multiple of their
+    last bit, while the exact cross product is a few units)"""
+    if kind.replace('D:', '') not in ('area-changed-at-epsilon-0', 'retained-vertex-within-epsilon'):
+        return False
+    xs, ys = [q[0] for q in p], [q[1] for q in p]
+    return (max(xs) - min(xs)) * (max(ys) - min(ys)) >= 2 ** 53
+
+
 def run_c16(ctx):
     n = _tier(ctx, 12000, 300000)
     out, err = fw.run_stream(ctx['root'], ctx['workdir'], 'c16', ctx['seed'], n, [])
@@ -924,7 +937,7 @@ def run_c16(ctx):
                 go8 = [[int(F(a) * k2), int(F(b) * k2)] for a, b in want]
                 for cl in simplify_clauses(m['path8'], F(m['eps']) * k2, m['closed'], go8, {}):
                     e = {'pathD_times_2^k': m['path8'], 'k': int(m.get('dscale', 3)), 'eps_times_2^k': float(F(m['eps']) * k2), 'closed': m['closed']}
-                    viol.append({'key': fw.input_key(e), 'kind': 'D:' + cl, 'text': 'SimplifyPathD(path/2^k of %s, eps=%s, closed=%s) = 2^-k*%s: %s' % (str(m['path8'])[:300], m['eps'], m['closed'], str(go8)[:200], cl),
+                    viol.append({'key': FLOAT_CANCEL_KEY if (float_cancel_known(m['path8'], cl) and got == want) else fw.input_key(e), 'kind': 'D:' + cl, 'text': 'SimplifyPathD(path/2^k of %s, eps=%s, closed=%s) = 2^-k*%s: %s' % (str(m['path8'])[:300], m['eps'], m['closed'], str(go8)[:200], cl),
                                  'detail': {'corpus_entry': e, 'go_times_2^k': go8, 'model': got}})
             continue
         p, eps, closed, go = m['path'], m['eps'], m['closed'], m['go']
@@ -937,14 +950,16 @@ def run_c16(ctx):
                 ctx['samples'].append({'path': p, 'eps': eps, 'closed': closed, 'go': go, 'model': model})
         for cl in simplify_clauses(p, eps, closed, go, m):
             e = {'path': p, 'eps': eps, 'closed': closed}
-            viol.append({'key': fw.input_key(e), 'kind': cl, 'text': 'SimplifyPath64(%s, eps=%s, closed=%s) = %s: %s' % (str(p)[:300], eps, closed, str(go)[:200], cl),
+            # the float-cancellation finding explains a failure only when the faithful float64 model reproduces the output
+            viol.append({'key': FLOAT_CANCEL_KEY if (float_cancel_known(p, cl) and model == go) else fw.input_key(e), 'kind': cl, 'text': 'SimplifyPath64(%s, eps=%s, closed=%s) = %s: %s' % (str(p)[:300], eps, closed, str(go)[:200], cl),
                          'detail': {'corpus_entry': e, 'go': go, 'model': model, 'retained': m.get('retained'), 'retained_translated': m.get('retained_translated'), 'retained_scaled': m.get('retained_scaled'), 'v': m.get('v'), 'k': m.get('k')}})
     ctx['nontrivial'] += ntriv
     uniq, out_v = set(), []
     for v in viol:
-        if v['kind'] in uniq:
+        uk = (v['kind'], v['key'] == FLOAT_CANCEL_KEY)
+        if uk in uniq:
             continue
-        uniq.add(v['kind'])
+        uniq.add(uk)
         out_v.append(v)
     return k1_finish(ctx, 'C16', out_v, mismatches, 'SimplifyPath64/SimplifyPathD')
 
